@@ -410,7 +410,7 @@ def scenarios_for(tree, ops, id_pool, run_ops, n, rng=None):
                     yield {"op": op, "tree": tree, "ids": ids}
 
 
-ID_POOL = ["a", "b", "c", "d", "B", "a.b", "a_b", "t10", "t9", "m.K.test_1", "m.K.test_10", "e"]
+ID_POOL = ["a", "b", "c", "d", "B", "a.b", "a_b", "t10", "t9", "m.K.test_1", "m.K.test_10", "e", "m.K.test_x(utf8 input)"]
 
 
 def random_tree(rng):
@@ -434,6 +434,14 @@ def random_tree(rng):
 
 def all_scenarios(ops, seed):
     n = 0
+    # ids with blanks in them (scenario-multiplied tests are called `mod.K.test_x(utf8 input)`): one id per LINE of the list file
+    spaced = ["S", "Tm.t(a b)", "Ta", ["S", "Tb)", "Pm.t(a"], "Tz z"]
+    for op in ops:
+        if op in ("loadlist", "loadrun", "filter"):
+            for ids in (["m.t(a b)"], ["a"], ["m.t(a b)", "a", "z z"], ["m.t(a", "b)"], ["z"]):
+                yield dict({"op": op, "tree": spaced, "ids": ids}, **({"container": "set"} if op == "filter" else {}))
+        elif op in ("list", "iterate", "sorted"):
+            yield {"op": op, "tree": spaced}
     for tree in small_trees(1, 3, ["Ta", "Tb", "Pc", "Pa"]):
         n += 1
         for sc in scenarios_for(tree, ops, ["a", "b", "c", "zz"], True, n):
